@@ -88,3 +88,36 @@ Theorem C09_TU_signing_is_unique_up_to_scaling : forall m n (M N : mat),
     forall i j, (i < m)%nat -> (j < n)%nat -> get N i j = (nthZ rs i * nthZ cs j * get M i j)%Z.
 Proof. exact CamionUnique.tu_signing_unique_std. Qed.
 Print Assumptions C09_TU_signing_is_unique_up_to_scaling.
+
+(* ---------- with uniqueness and the completeness of the sign propagation (CamionCertComplete.v) the certified judge decides both
+   directions: on a support certified regular, "is a scaling of the certified matrix" IS total unimodularity; an accepted record has a
+   totally unimodular output and the test verdict "yes" exactly for a totally unimodular input; and a correct answer is accepted ---------- *)
+From Cmr Require CamionCertComplete.
+Theorem C09_scaling_test_decides_total_unimodularity : forall m n N M,
+  wf_mat m n N = true -> wf_mat m n M = true -> is_ternary M = true -> CamionModel.same_support M N = true ->
+  tu_bf m n N = true -> (CamionCertModel.is_scaling_of m n N M = true <-> tu_bf m n M = true).
+Proof. exact CamionCertComplete.is_scaling_of_iff_tu. Qed.
+Print Assumptions C09_scaling_test_decides_total_unimodularity.
+
+Theorem C09_certified_support_verdict_is_definition :
+  forall rec m n M rc1 v viol rc2 was Sg viol2 rc3 v' rc4 was2 S2 mN nN N w rest,
+  CamionCertModel.camion_cert_input rec =
+    Some (((m, n, M), (rc1, v, viol), (rc2, was, Sg, viol2), (rc3, v'), (rc4, was2, S2), (mN, nN, N), w), rest) ->
+  CamionCertModel.camion_certified m n M mN nN N w = true ->
+  CamionCertModel.judge_camion_cert rec = 0 ->
+  rc1 = 0 /\ rc2 = 0 /\
+  exists Sm, Sg = Some (m, n, Sm) /\ tu_bf m n Sm = true /\ (v = 1 \/ v = 0) /\ (v = 1 <-> tu_bf m n M = true).
+Proof. exact CamionCertComplete.judge_camion_cert_sound_full. Qed.
+Print Assumptions C09_certified_support_verdict_is_definition.
+
+Theorem C09_certified_support_correct_answers_are_accepted :
+  forall rec m n M rc1 v viol rc2 was Sg viol2 rc3 v' rc4 was2 S2 mN nN N w rest,
+  CamionCertModel.camion_cert_input rec =
+    Some (((m, n, M), (rc1, v, viol), (rc2, was, Sg, viol2), (rc3, v'), (rc4, was2, S2), (mN, nN, N), w), rest) ->
+  CamionCertModel.camion_certified m n M mN nN N w = true ->
+  rc1 = 0 -> rc2 = 0 ->
+  (exists Sm, Sg = Some (m, n, Sm) /\ wf_mat m n Sm = true /\ CamionModel.same_support M Sm = true /\ tu_bf m n Sm = true) ->
+  (v = 1 <-> tu_bf m n M = true) -> (v = 0 \/ v = 1) ->
+  CamionCertModel.judge_camion_cert rec = 0.
+Proof. exact CamionCertComplete.judge_camion_cert_complete. Qed.
+Print Assumptions C09_certified_support_correct_answers_are_accepted.
